@@ -1749,6 +1749,16 @@ fn main() {
                        "validator_calls": vn, "real_proof_cases": opts.real_proofs.len()})
             );
         }
+        Some("one") => {
+            // one case at its original index (the randomness is derived from seed and index), full build always
+            let case = read_ndjson(&args[2]).remove(0);
+            let idx: usize = args[3].parse().expect("index");
+            let opts = Opts { seed, real_proofs: [idx].into_iter().collect() };
+            let mut st = Stats::default();
+            let errs = dispatch(idx, &case, &opts, &mut st);
+            let bad: Vec<J> = if errs.is_empty() { vec![] } else { vec![json!({"kind": "case", "idx": idx, "case": case, "errors": errs})] };
+            println!("{}", json!({"cases": 1, "mismatches": bad, "stats": st.counts, "distinct": st.sigs.len(), "validator_calls": 0}));
+        }
         _ => {
             eprintln!("usage: c14_replay run <cases.ndjson> <real_proof_samples> [<vtable.json>]");
             std::process::exit(2);
